@@ -570,7 +570,7 @@ fn out_json(o: &Obs, base: i64, tick: i64, rescale: f32) -> Value {
 // magnitude that a rounding tolerance "proportional to f32 epsilon" is proportional to.  Returns (value, magnitude) per
 // output component, or None when the kind has no reference here / the output must be absent.
 // ------------------------------------------------------------------------------------------------
-fn reference(kind: &str, par: &Value, hist: &[(i64, f64)], w_ns: i64) -> Option<Vec<(f64, f64)>> {
+fn reference(kind: &str, par: &Value, hist: &[(i64, f64)], w_ns: i64, cmd: (i64, f32)) -> Option<Vec<(f64, f64)>> {
     let n = hist.len();
     if n == 0 {
         return None;
@@ -601,6 +601,38 @@ fn reference(kind: &str, par: &Value, hist: &[(i64, f64)], w_ns: i64) -> Option<
             }
             let (der, mder) = if n >= 2 { ((e(n - 1) - e(n - 2)) / dt(n - 1), (e(n - 1).abs() + e(n - 2).abs()) / dt(n - 1)) } else { (0.0, 0.0) };
             Some(vec![(kp * e(n - 1) + ki * int + kd * der, kp.abs() * (sp.abs() + hist[n - 1].1.abs()) + ki.abs() * mint + kd.abs() * mder)])
+        }
+        "CmdPID" => {
+            // hist holds the state component the command's kind selects; the controller output is integrated as often as the kind says
+            let g = &par["gains"][cmd.0 as usize];
+            let (kp, ki, kd) = (rat(&g["kp"]) as f32 as f64, rat(&g["ki"]) as f32 as f64, rat(&g["kd"]) as f32 as f64);
+            let target = cmd.1 as f64;
+            let e = |i: usize| target - hist[i].1;
+            let me = |i: usize| target.abs() + hist[i].1.abs();
+            let (mut eint, mut meint) = (0.0f64, 0.0f64);
+            let (mut out_prev, mut mout_prev) = (kp * e(0), kp.abs() * me(0));
+            let (mut oint, mut moint, mut oii, mut moii) = (0.0f64, 0.0f64, 0.0f64, 0.0f64);
+            for i in 1..n {
+                eint += (e(i - 1) + e(i)) / 2.0 * dt(i);
+                meint += (me(i - 1) + me(i)) / 2.0 * dt(i);
+                let out = kp * e(i) + ki * eint + kd * (e(i) - e(i - 1)) / dt(i);
+                let mout = kp.abs() * me(i) + ki.abs() * meint + kd.abs() * (me(i) + me(i - 1)) / dt(i);
+                let (noint, nmoint) = (oint + (out_prev + out) / 2.0 * dt(i), moint + (mout_prev + mout) / 2.0 * dt(i));
+                if i >= 2 {
+                    oii += (oint + noint) / 2.0 * dt(i);
+                    moii += (moint + nmoint) / 2.0 * dt(i);
+                }
+                oint = noint;
+                moint = nmoint;
+                out_prev = out;
+                mout_prev = mout;
+            }
+            match cmd.0 {
+                0 => Some(vec![(out_prev, mout_prev)]),
+                1 if n >= 2 => Some(vec![(oint, moint)]),
+                2 if n >= 3 => Some(vec![(oii, moii)]),
+                _ => None,
+            }
         }
         "EWMA" | "EWMAQ" => {
             // value_0 = sample_0; value_i = value_(i-1) (1 - L) + sample_i L with L = 1 - (1 - s)^dt; (1 - s) is the f32 the stream holds
@@ -717,7 +749,7 @@ fn record(path: &str, seed: u64, n: usize, kinds: &[String]) {
         let mut cur_cmd = (cmd0.0, cmd0.1);
         let mut now_ticks: i64 = 0;
         let mut hist: Vec<(i64, f64)> = vec![];   // present samples since the last reset of this kind (for the f64 reference)
-        let resets_on_none = matches!(kind, "PID" | "Integral" | "Derivative");
+        let resets_on_none = matches!(kind, "PID" | "Integral" | "Derivative" | "CmdPID");
         let len = 8 + rng.below(57) as usize;
         for _ in 0..len {
             // draw an event
@@ -798,17 +830,21 @@ fn record(path: &str, seed: u64, n: usize, kinds: &[String]) {
             // the f64 reference over the samples since the last reset: error and bound per output component
             match cat.as_str() {
                 "some" if inner["v"].is_number() => hist.push((t_real.0, inner["v"].as_f64().unwrap() as f32 as f64)),
+                "some" if is_cmdpid => hist.push((t_real.0, inner["v"][cur_cmd.0 as usize].as_f64().unwrap() as f32 as f64)),
+                "set" if different => hist.clear(),
                 "none" if resets_on_none => hist.clear(),
                 "err" => hist.clear(),
                 _ => {}
             }
             let mut num: Vec<Value> = vec![];
             if cat == "some" && r.as_ref().map(|x| x.is_ok()).unwrap_or(false) {
-                if let (Some(refv), Obs::Present { vals, .. }) = (reference(kind, &par, &hist, w_ticks * tick), &o) {
+                if let (Some(refv), Obs::Present { vals, .. }) = (reference(kind, &par, &hist, w_ticks * tick, cur_cmd), &o) {
                     let eps = f32::EPSILON as f64;
                     for (j, (rv, mag)) in refv.iter().enumerate() {
                         if j < vals.len() {
-                            let bound = (hist.len() as f64 / 3.0 + 3.0) * eps * (mag + rv.abs()) + f32::MIN_POSITIVE as f64;
+                            // (the command PID integrates its own output once or twice more: twice the allowance)
+                            let allowance = (hist.len() as f64 / 3.0 + 3.0) * if is_cmdpid { 2.0 } else { 1.0 };
+                            let bound = allowance * eps * (mag + rv.abs()) + f32::MIN_POSITIVE as f64;
                             let (e, b) = scaled_err(vals[j] as f64 - rv, bound);
                             num.push(json!({"err": e, "bound": b}));
                         }
